@@ -20,6 +20,7 @@ func alphabet() []string {
 	return []string{
 		"regnode n1", "regnode n2", "regnode n3", "regnode n4",
 		"regpipe t1 p1 n1,n2,n3", "regpipe t1 p2 n2,n4", "regpipe t2 p1 n2,n3", "regpipe t3 p1 n1,n2,n4",
+		"regpipe t1 p3 n2,n3", "regpipe t1 p4 n2,n2,n3",
 		"rmpipe t1 p1", "rmpipenodes t2 p1", "rmpipe t3 p1", "rmpipenodes t1 p2",
 		"reopen", "reopenfail n1", "reopenfail n2", "reopenfail n3", "reopenfail n4",
 	}
@@ -111,9 +112,9 @@ func extra(r *hn.Reg, f []string) (bool, string, string) {
 var harness = &seqmc.Harness{
 	Property: prop,
 	Configs: func(tier string) []seqmc.Config {
-		d := 6
+		d := 7
 		if tier == "thorough" {
-			d = 8
+			d = 9
 		}
 		return []seqmc.Config{{Name: "registry x reopen", Alphabet: alphabet(), Depth: d, Permute: true}}
 	},
@@ -126,6 +127,6 @@ func main() {
 	_ = strings.Join
 	hk.Main(seqmc.Check(harness,
 		"BFS over all registry histories up to the depth bound on 3 event types with shared nodes (RegisterNode, RegisterPipeline, RemovePipeline, RemovePipelineAndNodes); in every reached state: Reopen with no failing node must return nil and have invoked Reopen on every node object of every registered pipeline; with all objects of one node id failing (each node id in turn) it must return an error for which errors.Is(err, thatNode'sError) holds iff a registered pipeline contains such an object. The iteration order over the event types' graphs and over sync.Map.Range is an explored permutation for the Reopen step.",
-		[]string{"depth 6 (quick) / 8 (thorough); 3 event types, 4 node ids, 4 pipelines"},
+		[]string{"depth 7 (quick) / 9 (thorough); 3 event types, 4 node ids, 6 pipeline definitions incl. pipelines sharing a leading node and one listing a node twice"},
 		150*time.Second, 45*time.Minute))
 }
